@@ -46,7 +46,7 @@ CONC = ['none', 'poll', 'queued', 'during', 'all']
 CONV = ['none', 'raise']
 AU = [True, False]
 TR = [None, 'polling', 'websocket']
-SRV = ['T', 'A']
+SRV = ['T', 'A', 'H']      # H: the asyncio server behind the real aiohttp adapter
 
 
 def frame_value(name):
@@ -411,14 +411,14 @@ def run_nodriver(rec, spec):
 
 def plan(tier, seed):
     rng = gen.mkrng('c06', seed)
-    dims = [len(FRAMES), len(FRAMES), len(CLOSE_AT), 2, len(CONC), 2, 3, 2]
+    dims = [len(FRAMES), len(FRAMES), len(CLOSE_AT), 2, len(CONC), 2, 3, 3]
     allc = list(itertools.product(*[range(n) for n in dims]))
     if tier == 'thorough':
         chosen = allc
     else:
         base = [c for c in allc if c[3] == 0 and c[5] == 0 and c[6] == 0
                 and c[4] in (0, 4)]
-        chosen = base + rng.sample(allc, 1500)
+        chosen = base + rng.sample(allc, 2000)
     chosen = [tuple(c) for c in chosen]
     # cells with concurrent activity on the threaded server again under
     # seeded random cooperative schedules (with yields at signalling points)
@@ -431,7 +431,7 @@ def plan(tier, seed):
     n = 16
     shards = [{'cells': chosen[i::n], 'all': tier == 'thorough'}
               for i in range(n)]
-    shards[0]['nodriver'] = [{'srv': x, 'when': w} for x in SRV
+    shards[0]['nodriver'] = [{'srv': x, 'when': w} for x in SRV[:2]
                              for w in ('before', 'after')]
     return shards
 
